@@ -128,3 +128,313 @@ def _e_curry(interp, args, kwargs, result):
 
 
 contract('rigid.Diagram.curry', params=_p_curry, ensures=_e_curry, property_ids=('C18', 'C01'))
+
+
+# ====================================================================================================================
+# Call-site contracts of the rule images (what the proofs above establish, in the form a caller needs) and the
+# biclosed side of the translation: the class invariants of the rule boxes and the rule dispatch of biclosed.Functor.
+#
+# Biclosed types: a slash type is a one-object type t with ty_over(t) / ty_under(t) and two sides ty_sl(t), ty_sr(t)
+# (uninterpreted on sequences; `a << b` / `a >> b` build them with the projection facts).  A functor on biclosed
+# types into rigid types is an object map FT with FT(a @ b) = FT(a) @ FT(b) (assumed, as for C04),
+# FT(a << b) = FT(a) @ FT(b).l and FT(a >> b) = FT(a).r @ FT(b) (proved below for the Over / Under branches of
+# biclosed.Functor.__call__, assumed at the recursive call sites).
+
+def _pre(ex, what, cond):
+    ex.prove('pre:' + what, cond)
+
+
+def _abs_fa(interp, args, kwargs):
+    ex = interp.ex
+    left, right = args
+    k = z3.simplify(T.ty_len(left.t) - T.ty_len(right.t))
+    _pre(ex, 'fa: len(left) >= len(right)', k >= 0)
+    A, tail = ex.ty_split(left.t, k)
+    _pre(ex, 'fa: left ends with right.l', T.ty_eq(tail, _adj(interp, right.t, 'l')))
+    return _fresh_wf(interp, 'fa', T.ty_concat(left.t, right.t), A)
+
+
+def _abs_ba(interp, args, kwargs):
+    ex = interp.ex
+    left, right = args
+    _pre(ex, 'ba: len(right) >= len(left)', T.ty_len(right.t) >= T.ty_len(left.t))
+    head, B = ex.ty_split(right.t, T.ty_len(left.t))
+    _pre(ex, 'ba: right starts with left.r', T.ty_eq(head, _adj(interp, left.t, 'r')))
+    return _fresh_wf(interp, 'ba', T.ty_concat(left.t, right.t), B)
+
+
+def _abs3(expect, tag):
+    def f(interp, args, kwargs):
+        A, B, C = [a.t for a in args]
+        dom, cod = expect(interp, A, B, C)
+        return _fresh_wf(interp, tag, dom, cod)
+    return f
+
+
+_EXPECT3 = {
+    'fc': lambda it, A, B, C: (T.ty_concat(A, _adj(it, B, 'l'), B, _adj(it, C, 'l')), T.ty_concat(A, _adj(it, C, 'l'))),
+    'bc': lambda it, A, B, C: (T.ty_concat(_adj(it, A, 'r'), B, _adj(it, B, 'r'), C), T.ty_concat(_adj(it, A, 'r'), C)),
+    'fx': lambda it, A, B, C: (T.ty_concat(A, _adj(it, B, 'l'), _adj(it, C, 'r'), B), T.ty_concat(_adj(it, C, 'r'), A)),
+    'bx': lambda it, A, B, C: (T.ty_concat(B, _adj(it, A, 'l'), _adj(it, B, 'r'), C), T.ty_concat(C, _adj(it, A, 'l'))),
+}
+
+
+def _abs_curry(interp, args, kwargs):
+    ex = interp.ex
+    d = interp.world.as_diagram(args[0])
+    n = kwargs.get('n_wires', args[1] if len(args) > 1 else VInt(1))
+    left = kwargs.get('left', args[2] if len(args) > 2 else VBool(False))
+    _pre(ex, 'curry: 1 <= n_wires <= len(dom)', z3.And(1 <= n.t, n.t <= T.ty_len(d.dom.t)))
+    if ex.branch(left.t):
+        wires, rest = ex.ty_split(d.dom.t, n.t)
+        return _fresh_wf(interp, 'curry', rest, T.ty_concat(_adj(interp, wires, 'r'), d.cod.t))
+    rest, wires = ex.ty_split(d.dom.t, z3.simplify(T.ty_len(d.dom.t) - n.t))
+    return _fresh_wf(interp, 'curry', rest, T.ty_concat(d.cod.t, _adj(interp, wires, 'l')))
+
+
+CONTRACTS['rigid.Diagram.fa'].abstract = _abs_fa
+CONTRACTS['rigid.Diagram.ba'].abstract = _abs_ba
+for _k, _e in _EXPECT3.items():
+    CONTRACTS['rigid.Diagram.' + _k].abstract = _abs3(_e, _k)
+CONTRACTS['rigid.Diagram.curry'].abstract = _abs_curry
+
+
+# the call-site form and the proved form of each rule contract agree (checked on every run: the call-site contract applied
+# to the arguments of the proof must promise exactly the dom / cod that was proved)
+def _consistency(qual):
+    c = CONTRACTS[qual]
+    proved = c.ensures
+
+    def ensures(interp, args, kwargs, result):
+        proved(interp, args, kwargs, result)
+        ex = interp.ex
+        result = interp.world.as_diagram(result)
+
+        def side():
+            promised = c.abstract(interp, list(args), dict(kwargs))
+            ex.prove('call-site contract of %s promises the proved dom' % qual, T.ty_eq(promised.dom.t, result.dom.t))
+            ex.prove('call-site contract of %s promises the proved cod' % qual, T.ty_eq(promised.cod.t, result.cod.t))
+        ex.side(side)
+    c.ensures = ensures
+
+
+for _q in ('fa', 'ba', 'fc', 'bc', 'fx', 'bx', 'curry'):
+    _consistency('rigid.Diagram.' + _q)
+
+
+# ---------------------------------------------------------------- class invariants of the biclosed rule boxes
+# assumed: monoidal.Box.__init__ stores name, dom and cod as given (its own body is the one-box diagram constructor)
+contract('monoidal.Box.__init__', is_init=True, spec='''
+def spec(self, name, dom, cod, **params):
+    self._name = name
+    self._dom = dom
+    self._cod = cod
+''', params=None)
+
+
+def _slash_ty(ex, name, which=None):
+    """a symbolic biclosed type; which = 'over' / 'under' makes it a slash type"""
+    t = z3.Const(name, T.TyS)
+    if which is not None:
+        ex.assume(z3.Length(t) == 1)
+        ex.assume(T.ty_over(t) == z3.BoolVal(which == 'over'))
+        ex.assume(T.ty_under(t) == z3.BoolVal(which == 'under'))
+    return VTy(t)
+
+
+def _rule_init(cls, kinds, expect, needs=None):
+    """cls(*slash types of the given kinds): the stored dom / cod are those of the rule (from the property: applications,
+    compositions, crossed compositions); `needs` is the side condition under which the constructor must accept"""
+    def params(ex):
+        tys = [_slash_ty(ex, 'T%d' % i, k) for i, k in enumerate(kinds)]
+        ex._rule_args = tys
+        if needs is not None:
+            ex.assume(needs(*[t.t for t in tys]))
+        return [VObject('biclosed.' + cls)] + tys, {}
+
+    def ensures(interp, args, kwargs, obj):
+        ex = interp.ex
+        dom, cod = expect(interp, *[t for t in ex._rule_args])
+        ex.prove('C18:%s.dom is the rule\'s domain' % cls, T.ty_eq(obj.attrs['_dom'].t, dom.t))
+        ex.prove('C18:%s.cod is the rule\'s codomain' % cls, T.ty_eq(obj.attrs['_cod'].t, cod.t))
+    contract('biclosed.%s.__init__' % cls, is_init=True, params=params, ensures=ensures, property_ids=('C18',))
+
+
+def _cat(*ts):
+    return VTy(T.ty_concat(*[t.t for t in ts]))
+
+
+def _L(t):
+    return VTy(T.ty_sl(t.t))
+
+
+def _R(t):
+    return VTy(T.ty_sr(t.t))
+
+
+def _over(it, a, b):
+    return it.world.ty_slash(it, a, b, 'over')
+
+
+def _under(it, a, b):
+    return it.world.ty_slash(it, a, b, 'under')
+
+
+# FA(a << b) : (a << b) @ b -> a            BA(a >> b) : a @ (a >> b) -> b
+_rule_init('FA', ['over'], lambda it, o: (_cat(o, _R(o)), _L(o)))
+_rule_init('BA', ['under'], lambda it, u: (_cat(_L(u), u), _R(u)))
+# FC(a << b, b << c) : -> a << c            BC(a >> b, b >> c) : -> a >> c
+_rule_init('FC', ['over', 'over'], lambda it, p, q: (_cat(p, q), _over(it, _L(p), _R(q))),
+           needs=lambda p, q: T.ty_sr(p) == T.ty_sl(q))
+_rule_init('BC', ['under', 'under'], lambda it, p, q: (_cat(p, q), _under(it, _L(p), _R(q))),
+           needs=lambda p, q: T.ty_sr(p) == T.ty_sl(q))
+# FX(a << b, c >> b) : -> c >> a            BX(m << l, m >> r) : -> r << l
+_rule_init('FX', ['over', 'under'], lambda it, p, q: (_cat(p, q), _under(it, _L(q), _L(p))),
+           needs=lambda p, q: T.ty_sr(p) == T.ty_sr(q))
+_rule_init('BX', ['over', 'under'], lambda it, p, q: (_cat(p, q), _over(it, _R(q), _R(p))),
+           needs=lambda p, q: T.ty_sl(p) == T.ty_sl(q))
+
+
+# Curry(d, n, left): left: dom[n:] -> dom[:n] >> cod ; right: dom[:-n] -> cod << dom[-n:]      (1 <= n <= len(dom))
+def _p_curry_init(ex):
+    d = ex.sym_diagram('d', wf=True, global_inst=True)
+    n = ex.sym_int('n_wires')
+    ex.assume(z3.And(1 <= n.t, n.t <= T.ty_len(d.dom.t)))
+    left = ex.fork(2) == 1
+    ex._curry_init = (d, n, left)
+    return [VObject('biclosed.Curry'), d], {'n_wires': n, 'left': VBool(left)}
+
+
+def _e_curry_init(interp, args, kwargs, obj):
+    ex = interp.ex
+    d, n, left = ex._curry_init
+    if left:
+        wires, rest = ex.ty_split(d.dom.t, n.t)
+        cod = _under(interp, VTy(wires), d.cod)
+    else:
+        rest, wires = ex.ty_split(d.dom.t, z3.simplify(T.ty_len(d.dom.t) - n.t))
+        cod = _over(interp, d.cod, VTy(wires))
+    ex.prove('C18:Curry.dom is the uncurried part of the domain', T.ty_eq(obj.attrs['_dom'].t, rest))
+    ex.prove('C18:Curry.cod is the slash type of the curried wires and the codomain', T.ty_eq(obj.attrs['_cod'].t, cod.t))
+    ex.prove('C18:Curry.n_wires stored', obj.attrs['n_wires'].t == n.t)
+
+
+contract('biclosed.Curry.__init__', is_init=True, params=_p_curry_init, ensures=_e_curry_init, property_ids=('C18',))
+
+
+# ---------------------------------------------------------------- biclosed.Functor.__call__, branch by branch
+def _bF():
+    F = VFunctor('F', ar_factory='rigid.Diagram')
+    F.slash = True
+    return F
+
+
+def _branch(label, params, ensures):
+    c = Contract('biclosed.Functor.__call__', params=params, ensures=ensures, property_ids=('C18', 'C04'))
+    c.label = 'biclosed.Functor.__call__[%s]' % label
+    CONTRACTS[c.label] = c
+
+
+def _FT(interp, F, t):
+    return interp.world.functor_ty(interp, F, t)
+
+
+# types: F(a << b) = F(a) << F(b) = F(a) @ F(b).l ; F(a >> b) = F(a).r @ F(b)
+def _p_ty(which):
+    def params(ex):
+        F = _bF()
+        t = _slash_ty(ex, 'T', which)
+        ex._ft = (F, t)
+        return [F, t], {}
+    return params
+
+
+def _e_ty(which):
+    def ensures(interp, args, kwargs, result):
+        ex = interp.ex
+        F, t = ex._ft
+        a, b = F.FT(T.ty_sl(t.t)), F.FT(T.ty_sr(t.t))
+        want = T.ty_concat(a, _adj(interp, b, 'l')) if which == 'over' else T.ty_concat(_adj(interp, a, 'r'), b)
+        ex.prove('C18:F(%s type) is F(left) %s F(right)' % (which, '<<' if which == 'over' else '>>'),
+                 T.ty_eq(result.t, want))
+    return ensures
+
+
+_branch('Over', _p_ty('over'), _e_ty('over'))
+_branch('Under', _p_ty('under'), _e_ty('under'))
+
+
+def _rule_branch(cls, kinds, build, needs=None):
+    """diagram = cls(*slash types) with the class invariant established by cls.__init__ (proved above)"""
+    def params(ex):
+        from pyvc.interp import Interp
+        from pyvc.world import World
+        it = Interp(ex, World(CONTRACTS))
+        F = _bF()
+        tys = [_slash_ty(ex, 'T%d' % i, k) for i, k in enumerate(kinds)]
+        if needs is not None:
+            ex.assume(needs(*[t.t for t in tys]))
+        b = z3.Const('rule', T.BoxS)
+        ex.assume(T.bkind(b) == T.KINDS[cls])
+        dom, cod = build(it, *tys)
+        ex._rb = (F, dom, cod)
+        # dom / cod of the box are the explicit rule types (so that slicing resolves syntactically)
+        return [F, VBox(b, extra={'dom': dom, 'cod': cod})], {}
+
+    def ensures(interp, args, kwargs, result):
+        ex = interp.ex
+        F, dom, cod = ex._rb
+        result = interp.world.as_diagram(result)
+        ex.prove('C18:F(%s).dom == F(%s.dom)' % (cls, cls), T.ty_eq(result.dom.t, _FT(interp, F, dom.t)))
+        ex.prove('C18:F(%s).cod == F(%s.cod)' % (cls, cls), T.ty_eq(result.cod.t, _FT(interp, F, cod.t)))
+        prove_wf(ex, 'C01:F(%s)' % cls, result)
+    c = Contract('biclosed.Functor.__call__', params=params, ensures=ensures, property_ids=('C18', 'C04'))
+    c.label = 'biclosed.Functor.__call__[%s]' % cls
+    CONTRACTS[c.label] = c
+
+
+_rule_branch('FA', ['over'], lambda it, o: (_cat(o, _R(o)), _L(o)))
+_rule_branch('BA', ['under'], lambda it, u: (_cat(_L(u), u), _R(u)))
+_rule_branch('FC', ['over', 'over'], lambda it, p, q: (_cat(p, q), _over(it, _L(p), _R(q))),
+             needs=lambda p, q: T.ty_sr(p) == T.ty_sl(q))
+_rule_branch('BC', ['under', 'under'], lambda it, p, q: (_cat(p, q), _under(it, _L(p), _R(q))),
+             needs=lambda p, q: T.ty_sr(p) == T.ty_sl(q))
+_rule_branch('FX', ['over', 'under'], lambda it, p, q: (_cat(p, q), _under(it, _L(q), _L(p))),
+             needs=lambda p, q: T.ty_sr(p) == T.ty_sr(q))
+_rule_branch('BX', ['over', 'under'], lambda it, p, q: (_cat(p, q), _over(it, _R(q), _R(p))),
+             needs=lambda p, q: T.ty_sl(p) == T.ty_sl(q))
+
+
+# Curry(d, n, left): the functor recomputes the number of rigid wires from the curried side of the slash type.
+# Precondition (stated, not proved): the image of the curried wires is not empty (a functor sending them to the unit
+# type would ask rigid currying for 0 wires, outside its documented domain).
+def _p_curry_branch(ex):
+    from pyvc.interp import Interp
+    from pyvc.world import World
+    it = Interp(ex, World(CONTRACTS))
+    F = _bF()
+    # the curried wires W (n_wires = len(W) >= 1) and the remaining wires R of the inner diagram's domain
+    wires, rest = z3.Const('W', T.TyS), z3.Const('R', T.TyS)
+    ex.assume(z3.Length(wires) >= 1)
+    n = VInt(z3.Length(wires))
+    left = ex.fork(2) == 1
+    d = ex.sym_diagram('d', wf=True, global_inst=True,
+                       dom=T.ty_concat(wires, rest) if left else T.ty_concat(rest, wires))
+    cod = _under(it, VTy(wires), d.cod) if left else _over(it, d.cod, VTy(wires))
+    ex.assume(z3.Length(_FT(it, F, wires)) >= 1)
+    b = z3.Const('rule', T.BoxS)
+    ex.assume(T.bkind(b) == T.KINDS['Curry'])
+    ex._rb = (F, VTy(rest), cod)
+    return [F, VBox(b, extra={'dom': VTy(rest), 'cod': cod, 'diagram': d, 'n_wires': n, 'left': VBool(left)})], {}
+
+
+def _e_curry_branch(interp, args, kwargs, result):
+    ex = interp.ex
+    F, dom, cod = ex._rb
+    result = interp.world.as_diagram(result)
+    ex.prove('C18:F(Curry).dom == F(Curry.dom)', T.ty_eq(result.dom.t, _FT(interp, F, dom.t)))
+    ex.prove('C18:F(Curry).cod == F(Curry.cod)', T.ty_eq(result.cod.t, _FT(interp, F, cod.t)))
+    prove_wf(ex, 'C01:F(Curry)', result)
+
+
+_branch('Curry', _p_curry_branch, _e_curry_branch)
